@@ -78,7 +78,7 @@ MODES = ('default', 'both', 'same-suffix', 'end-only', 'begin-only', 'const', 'c
 
 class C08(Prop):
     id = 'C08'
-    rule_added = '10% sibling cases: two operators over one operand whose intervals have the same numerals and differ only in a unit suffix, compared with the reference on the two real durations.'
+    rule_added = '10% sibling cases: two operators over one operand whose intervals have the same numerals and differ only in a unit suffix, compared with the reference on the two real durations. Eighth spelling: suffixed begin + bare declared constant.'
     rule = ('a generated formula with bounded operators (bounds in samples) is run once in the canonical notation '
             '(period 1 s, unit s, no suffixes) and then under other notations of the same durations: period in {1 s, '
             '500 ms, 2 s, 250000 us, 1 ms} x default unit in {s, ms, us, ns} (set with spec.unit) x spelling in '
